@@ -20,7 +20,13 @@ structure AllowList where
   methods : Option (List Bytes)                    -- `none` = all methods
   headers : List Bytes
   maxAgeS : Nat
+  /-- the sub-second part of the configured `Duration`, in nanoseconds (< 10⁹) -/
+  maxAgeNanos : Nat := 0
   deriving Repr
+
+/-- `access-control-max-age`: `cache_for.as_secs() + u64::from(cache_for.subsec_nanos() > 0)` — whole seconds, a started
+second counts -/
+def AllowList.maxAgeHeader (al : AllowList) : Nat := al.maxAgeS + (if al.maxAgeNanos > 0 then 1 else 0)
 
 def visibleAscii (b : UInt8) : Bool := (32 ≤ b && b < 127) || b == 9
 
@@ -94,7 +100,7 @@ def respond (rule : Option AllowList) (r : Req) (pageStatus : Nat) : Reply :=
   | .preflight =>
     if allowed rule r then
       match r.originRaw.bind (fun o => if o.all visibleAscii && isPartOfOrigin o r.reqScheme r.reqAuthority then none else some ()), rule with
-      | some _, some al => ⟨204, false, acao, some al.methods, some al.headers, some al.maxAgeS⟩
+      | some _, some al => ⟨204, false, acao, some al.methods, some al.headers, some al.maxAgeHeader⟩
       | _, _ => ⟨204, false, acao, some none, some [], some 604800⟩      -- same origin: everything, one week
     else ⟨403, false, acao, none, none, none⟩
 
